@@ -240,8 +240,18 @@ fn record_cmd(args: &[String]) -> i32 {
         let per_pop = ns / npops;
         let proj_small: String = (0..*npops).map(|_| "3".to_string()).collect::<Vec<_>>().join(",");
         let proj_exact: String = (0..*npops).map(|j| (2 * (per_pop + usize::from(j < ns % npops)) + 1).to_string()).collect::<Vec<_>>().join(",");
-        for opts in [vec!["-s".to_string(), arg.clone()], vec!["-s".into(), arg.clone(), "--strict".into()],
-                     vec!["-s".into(), arg.clone(), "--project-shape".into(), proj_small], vec!["-s".into(), arg.clone(), "--project-shape".into(), proj_exact]] {
+        let mut optsets = vec![vec!["-s".to_string(), arg.clone()], vec!["-s".into(), arg.clone(), "--strict".into()],
+                               vec!["-s".into(), arg.clone(), "--project-shape".into(), proj_small]];
+        // projecting to the full size is only affordable when the spectrum stays small
+        let cells: f64 = (0..*npops).map(|j| (2 * (per_pop + usize::from(j < ns % npops)) + 1) as f64).product();
+        if cells <= 2e5 {
+            optsets.push(vec!["-s".into(), arg.clone(), "--project-shape".into(), proj_exact]);
+        }
+        // without projection the spectrum has the full shape as well
+        if cells > 5e6 {
+            optsets.retain(|o| o.iter().any(|x| x == "--project-shape"));
+        }
+        for opts in optsets {
             let mut a: Vec<String> = vec!["create".into()];
             a.extend(opts);
             runs.push((a, Some(vcf.clone().into_bytes())));
